@@ -868,8 +868,10 @@ pub fn run(tier: &str, seed: u64) -> i32 {
     let mut sp = SettingsSpec::faithful();
     sp.root = "runtime_types".into();
     cases.push(Case::new(RegSrc::Polkadot { retain: None }, sp, "polkadot"));
-    for (sname, spec) in faithful_neighbourhood() {
-        cases.push(Case::new(RegSrc::Prog(real_shapes_program()), spec, format!("D-real {sname}")));
+    for (pname, prog) in special_programs() {
+        for (sname, spec) in faithful_neighbourhood() {
+            cases.push(Case::new(RegSrc::Prog(prog.clone()), spec, format!("{pname} {sname}")));
+        }
     }
     report.add(sweep(
         "fault-free: real scale-info registries of the conformance corpus + Polkadot",
